@@ -512,10 +512,9 @@ theorem dollar_untagged_go (rest : List Nat) : ∀ (p : List Nat) (prev : Option
   · rename_i c
     have hc' : c ≠ 36 := by simpa using hc
     have : some c ≠ some 36 := by simpa using hc'
-    have h2 := dollarUntagged_close (some c) this rest
-    simp [dollarUntaggedBody, hp, hc', h2, push]
+    simp [dollarUntaggedBody, hp, hc', push]
   · rename_i d r ih
-    simp only [↓reduceIte, Bool.and_eq_true, bne_iff_ne, ne_eq] at hc
+    simp only [Bool.and_eq_true, bne_iff_ne, ne_eq] at hc
     have hd : some d ≠ some 36 := by simpa using hc.1
     have := ih (some d) hd hc.2
     simp [dollarUntaggedBody, hp, hc.1, this, push]
@@ -594,7 +593,7 @@ theorem dollar_tagged_go (t0 : Nat) (ts rest : List Nat) : ∀ p : List Nat, cle
     rw [List.cons_append, dollarTagged_none_cons _ _ _ (by simp)]
     simp [hc', dollarTagged_close t0 ts rest, pushE]
   · rename_i d r ih
-    simp only [↓reduceIte, Bool.and_eq_true, bne_iff_ne, ne_eq] at hc
+    simp only [Bool.and_eq_true, bne_iff_ne, ne_eq] at hc
     rw [List.cons_append, dollarTagged_none_cons _ _ _ (by simp)]
     simp only [ne_eq, not_true_eq_false, ↓reduceIte]
     rw [List.cons_append, dollarTagged_some_cons _ _ _ _ _ _ (by simp)]
@@ -800,7 +799,7 @@ theorem quotedBody_modes (q : Nat) (bs : Bool) (s : List Nat) :
     conv => rhs; unfold quotedBody
     simp only [hc, ↓reduceIte, and_self, push_map_snd, ih]
   all_goals
-    (conv => rhs; unfold quotedBody) <;> simp only [*, push_map_snd, ↓reduceIte, and_self]
+    (conv => rhs; unfold quotedBody) <;> simp only [*, push_map_snd, ↓reduceIte]
 
 theorem tripleBody_modes (q : Nat) (bs : Bool) (n : Nat) (s : List Nat) :
     (tripleBody q bs true n s).map Prod.snd = (tripleBody q bs false n s).map Prod.snd := by
